@@ -356,8 +356,9 @@ func forRof(f *forExpander) forStateFn {
 			f.tokens <- token{tokText, label}
 		}
 	}
-	if f.forCount < 1 && f.forLineLabelsAt >= 0 {
-		// nothing is emitted: the labels fall onto what follows the block
+	if f.forCount < 1 {
+		// nothing is emitted: the labels fall onto what follows the block,
+		// also when the body is empty or holds no line for them
 		writeLineLabels()
 	}
 	for i := 1; i <= f.forCount; i++ {
